@@ -177,6 +177,10 @@ def run(check, an: Analysis):
 
     # ---- A ------------------------------------------------------------------
     _check_formulas(check, an, transfer, throttle, paths)
+    # a transfer whose scope is aborted is closed (and gives its share back) only if the
+    # abort reaches every child: the closing loops walk copies (rule shared with C04)
+    from . import c04
+    c04.check_copy_iteration(check, an, 'P')
     # the fluid model is integrated with the numbers as they are: no rounding, no tolerance
     from . import c01
     c01.check_exact_arithmetic(check, an, 'A', ('usim._basics.pipe', 'usim._core.loop',
